@@ -347,7 +347,10 @@ def hash_twin_cases(res, rnd, prop) -> None:
                         try:
                             g.set_known_values([vals[k] for k in K], [Coalition(k) for k in K])
                             g.compute_bounds()
-                            fresh = IncompleteCooperativeGame(n, computer(comp))
+                            # the reference: a fresh game — computed by the OTHER superadditive computer where there is one (C03:
+                            # they agree), so that a per-process memo of one computer cannot serve both sides of the comparison
+                            other = {"sa": "sac", "sac": "sa"}.get(comp, comp)
+                            fresh = IncompleteCooperativeGame(n, computer(other))
                             fresh.set_known_values([vals[k] for k in K], [Coalition(k) for k in K])
                             fresh.compute_bounds()
                         except Exception:       # noqa: BLE001    such values may be outside a computer's domain: no verdict
